@@ -242,6 +242,21 @@ Module MjC.
     exists p. split; [exact E|].
     exact (mj_range (F64eps eps) D npts wts sorter blk cxlt root ord k m p0 p Hr Hs Ho Hk1 Hk2 Hm Hl E).
   Qed.
+
+  (* binary64 as the code computes it (ULPs epsilon 0), integer-valued weights with total <= 2^53:
+     the model returns, with every id below part_count -- no premise about the arithmetic *)
+  Lemma mj_collect_f64_integer : forall D (zs : list Z) sorter blk cxlt root ord (k : N) (m : nat) p0,
+    root_ok root -> sorter_ok sorter cxlt -> ord_ok ord (N.to_nat k) ->
+    1 <= k -> k < 2 ^ 60 -> (1 <= m)%nat -> (1 <= D)%nat ->
+    Forall (fun z => (0 <= z)%Z) zs -> (Coupe.Lib.Prelude.sumZ zs <= 2 ^ 53)%Z -> length p0 = length zs ->
+    exists p, multi_jagged F64 D (length zs) (map (fun z => Coupe.Lib.SFloat.f64_of_Z z) zs) sorter blk root ord k m p0 = Ok p
+              /\ length p = length zs /\ Forall (fun x => x < k) p.
+  Proof.
+    intros D zs sorter blk cxlt root ord k m p0 Hr Hs Ho Hk1 Hk2 Hm HD Hnn Hsum Hl.
+    destruct (C11.C11_f64_total D zs sorter blk cxlt root ord k m p0 Hr Hs Hk1 Hk2 Hm HD Hnn Hsum Hl) as [p E].
+    exists p. split; [exact E|].
+    exact (mj_range F64 D (length zs) _ sorter blk cxlt root ord k m p0 p Hr Hs Ho Hk1 Hk2 Hm Hl E).
+  Qed.
 End MjC.
 
 (* ------------------------------------------------- Greedy, KarmarkarKarp *)
